@@ -57,6 +57,7 @@ DEFAULT_KNOBS = dict(
     start_value_p=0.0,
     value_kinds=["id", "id", "int"],
     p_assign_style=0.3,
+    p_multi_group_name=0.0,
 )
 
 
@@ -249,6 +250,18 @@ def gen_program(rnd, k, idx=0, name=None):
         if not s["final"] and rnd.random() < k["p_state_action"]:
             s.setdefault("exit", [])
             add_unique(s["exit"], fresh("ex_", "exit"))
+    # the same callable attached to several groups of one transition / one state
+    if k["p_multi_group_name"] > 0:
+        for t in trans:
+            have = [g for g in ("before", "on", "after") if t.get(g)]
+            if have and rnd.random() < k["p_multi_group_name"]:
+                nm = rnd.choice(t[rnd.choice(have)])
+                for g in ("before", "on", "after"):
+                    if rnd.random() < 0.6:
+                        add_unique(t.setdefault(g, []), nm)
+        for s in prog["states"]:
+            if s.get("enter") and not s["final"] and rnd.random() < k["p_multi_group_name"]:
+                add_unique(s.setdefault("exit", []), rnd.choice(s["enter"]))
     # naming-convention callbacks
     conv = [("before_transition", "before"), ("on_transition", "on"), ("after_transition", "after"),
             ("on_enter_state", "enter"), ("on_exit_state", "exit")]
